@@ -667,10 +667,17 @@ class Extractor:
                 out_chunks.append((ins, origin))
         if pos < end:
             out_chunks.append((text[pos:end], ('src', rel, pos, qname)))
+        # R9 body part: `rename OLD NEW` replaces an identifier in the copied statements (used for `mut self`)
+        renames = [(c.args[0], c.args[1]) for c in children if c.kind == 'rename']
+        if renames:
+            self.log('R9', rel, R.line_of(text, bo), '%s: identifier(s) %s renamed in the body (by-value `mut` binding made a local)' % (qname, ', '.join('%s->%s' % r for r in renames)))
         # post-process source chunks: strip comments, R11
         for t, origin in out_chunks:
             if origin[0] == 'src':
                 t2 = self.strip_comments(t)
+                for (o_, n_) in renames:
+                    mk = R.code_mask(t2)
+                    t2 = ''.join(seg for seg in _rename_ident(t2, mk, o_, n_))
                 t3 = self.r11_asserts(t2, rel, R.line_of(text, origin[2]))
                 t3 = self.vis_rewrite(t3)
                 if t3 != t2:
@@ -891,6 +898,19 @@ class Extractor:
             if s.kind == 'fn' and s.name not in listed:
                 self.dropped.append('%s: trait method %s::%s not part of this unit' % (rel, name, s.name))
         self.out.add('}\n\n', ('glue',))
+
+
+def _rename_ident(text, mask, old, new):
+    i = 0
+    n = len(text)
+    pat = re.compile(r'\b' + re.escape(old) + r'\b')
+    pos = 0
+    for m in pat.finditer(text):
+        if mask[m.start()]:
+            yield text[pos:m.start()]
+            yield new
+            pos = m.end()
+    yield text[pos:]
 
 
 def decode_rust_bytes(lit, rel):
